@@ -155,3 +155,87 @@ theorem C20_cancel_step (s : Sess) (m : InMsg) (b : SState)
     · exact C20_cancel_resend s.clearLog m st c f h hf
   rw [step_incoming_eq s m hc _ rfl hnx, step_incoming_eq (s.setSt b) m hcb _ key hnx]
   rfl
+
+/-! ### a TestRequest received in sequence (`C20_testrequest_echo`) -/
+
+/-- **C20 (echo)**, any logged-on state: a TestRequest with the expected number that passes the identity gates (and
+    the SendingTime check where it applies — it is skipped during gap recovery), has no empty field and is not refused by
+    the application, carrying `112 = x`: the in-session handler does exactly this — FromAdmin, ONE Heartbeat `112 = x`
+    sent in reply, the expected number advanced by one; next state `inSession`. -/
+theorem C20_testrequest_echo (s : Sess) (m : InMsg) (x : String) (hk : kindOf m = "1")
+    (hb : checkBeginString s m = none) (hc : checkCompID s m = none)
+    (ht : (curResend s).isSome = true ∨ checkSendingTime s m = none)
+    (hn : getInt m 34 = .val s.store.target) (hv : validate m = none) (hcb : callbackVerdict m = none)
+    (hx : m.f.get? 112 = some x) :
+    inSessionFixMsgIn s m =
+      (incrTarget (sendInReplyTo (s.emit (.fromAdmin "1" (seqText m))) (mkOut "0" [(112, x)])), .inSession) :=
+  inSessionFixMsgIn_testRequest s m x hk hb hc ht hn hv hcb hx
+
+/-- in normal operation (also with a TestRequest of our own pending) that is the whole reaction … -/
+theorem C20_testrequest_echo_inSession (s : Sess) (m : InMsg) (x : String) (hst : s.st = .inSession ∨ s.st = .pendingIn)
+    (hk : kindOf m = "1") (hb : checkBeginString s m = none) (hc : checkCompID s m = none)
+    (ht : checkSendingTime s m = none)
+    (hn : getInt m 34 = .val s.store.target) (hv : validate m = none) (hcb : callbackVerdict m = none)
+    (hx : m.f.get? 112 = some x) :
+    fixMsgInCore s m =
+      (incrTarget (sendInReplyTo (s.emit (.fromAdmin "1" (seqText m))) (mkOut "0" [(112, x)])), .inSession) := by
+  have : fixMsgInCore s m = inSessionFixMsgIn s m := by rcases hst with h | h <;> simp [fixMsgInCore, h]
+  rw [this]; exact C20_testrequest_echo s m x hk hb hc (Or.inr ht) hn hv hcb hx
+
+/-- … and during gap recovery (also pending) it is the first thing that happens; what follows is the recovery
+    bookkeeping on the unchanged stash (next chunk / stay / drain — C04) -/
+theorem C20_testrequest_echo_recovery (s : Sess) (m : InMsg) (x : String) (stash : List (Int × InMsg)) (cur fin : Int)
+    (h : curResend s = some (stash, cur, fin))
+    (hk : kindOf m = "1") (hb : checkBeginString s m = none) (hc : checkCompID s m = none)
+    (hn : getInt m 34 = .val s.store.target) (hv : validate m = none) (hcb : callbackVerdict m = none)
+    (hx : m.f.get? 112 = some x) :
+    fixMsgInCore s m =
+      resendBook (incrTarget (sendInReplyTo (s.emit (.fromAdmin "1" (seqText m))) (mkOut "0" [(112, x)]))) .inSession
+        stash cur fin m := by
+  rw [fixMsgInCore_rec s m stash cur fin h, resendFixMsgIn_eq,
+    C20_testrequest_echo s m x hk hb hc (Or.inl (by rw [h]; rfl)) hn hv hcb hx]
+  rfl
+
+/-- the Heartbeat is numbered, stored and written after whatever was queued; the expected number is `T + 1` afterwards -/
+theorem C20_testrequest_echo_sent (s : Sess) (m : InMsg) (x : String) (hl : s.st.loggedOn = true) :
+    AdminSent (s.emit (.fromAdmin "1" (seqText m))) (mkOut "0" [(112, x)])
+      (sendInReplyTo (s.emit (.fromAdmin "1" (seqText m))) (mkOut "0" [(112, x)])) ∧
+    (incrTarget (sendInReplyTo (s.emit (.fromAdmin "1" (seqText m))) (mkOut "0" [(112, x)]))).store.target
+      = s.store.target + 1 := by
+  have hs := adminSent (s.emit (.fromAdmin "1" (seqText m))) (mkOut "0" [(112, x)]) rfl rfl hl
+  refine ⟨hs, ?_⟩
+  show (sendInReplyTo (s.emit (.fromAdmin "1" (seqText m))) (mkOut "0" [(112, x)])).store.target + 1 = _
+  rw [hs.target]; rfl
+
+/-! ### arming the peer timer; the interval in force (`C20_arming`) -/
+
+/-- every `Incoming` on a connected session — a message of any kind, or bytes that do not parse — ends by re-arming the
+    peer timer to 1.2 × the heartbeat interval in force after processing; it is the LAST observation of the event -/
+theorem C20_arming (s : Sess) (m : Option InMsg) (hc : s.st.connected = true) :
+    ∃ pre, (step s (.incomingMsg m)).2.1 = pre ++ [.armPeer (1200 * (step s (.incomingMsg m)).1.hb)] :=
+  step_incoming_arm s m hc
+
+/-- the interval in force after a Logon has been answered: for an acceptor the peer's HeartBtInt (108) unless
+    `HeartBtIntOverride` is configured; for an initiator the configured one (`hbAfterLogon`); this holds whenever the
+    Logon is accepted, with or without a sequence gap -/
+theorem C20_interval (s s' : Sess) (m : InMsg) (r : Option LogonErr) (h : handleLogon s m = (s', r))
+    (hok : r = none ∨ ∃ n t, r = some (.rej (.tooHigh n t))) :
+    s'.hb = (if s.cfg.initiator then s.hb else if s.cfg.hbOverride then s.hb
+             else match getInt m 108 with | .val v => v | _ => s.hb) :=
+  hb_handleLogon s s' m r h hok
+
+/-- a session starts with the configured interval when it is an initiator or overrides, so for those it is the
+    configured interval throughout -/
+theorem C20_interval_configured (cfg : Cfg) (s0 t0 : Int) (h : cfg.initiator = true ∨ cfg.hbOverride = true) :
+    (initSess cfg s0 t0).hb = cfg.hb := by
+  rcases h with h | h <;> simp [initSess, h]
+
+/-- the timers armed by the accepted Logon itself use the new interval: `logonFinish` re-arms the peer timer with the
+    value just adopted -/
+theorem C20_logon_arms (s : Sess) (m : InMsg) :
+    ∃ pre, (logonFinish s m).1.log = pre ++ Obs.armPeer (1200 * s.hb) :: s.log := by
+  unfold logonFinish
+  simp only []
+  split
+  · exact ⟨[.onLogon], rfl⟩
+  · exact ⟨[.incT, .onLogon], rfl⟩
